@@ -722,9 +722,10 @@ def run_case(case):
                 if is_exc_code(out[1]) and not own_err:
                     mon.append(dict(prop='C04', rule='innocent-failed',
                                     detail=f'request {r} has no failure of its own but received {out[1]}; allowed {sorted(allowed)}'))
-                elif is_exc_code(out[1]) and out[1].startswith('E999'):
-                    mon.append(dict(prop='C04', rule='wrong-exception',
-                                    detail=f'request {r} received {excs.get(r, (0, None))[1]}; allowed {sorted(allowed)}'))
+                elif is_exc_code(out[1]):
+                    mon.append(dict(prop='C04', rule='foreign-exception',
+                                    detail=f'request {r} received {excs.get(r, (0, out[1]))[1]} = {out[1]}, which is none of its '
+                                           f'own failures; allowed {sorted(allowed)}'))
                 mon.append(dict(prop='C02', rule='crosstalk',
                                 detail=f'request {r} received {out[1]}; its own outcomes are {sorted(allowed)}'))
         elif out[0] == 'timeout':
